@@ -4,6 +4,7 @@ package keeper
 
 import (
 	"context"
+	"strings"
 
 	sdk "github.com/cosmos/cosmos-sdk/types"
 
@@ -11,6 +12,7 @@ import (
 	marketapi "github.com/regen-network/regen-ledger/api/v2/regen/ecocredit/marketplace/v1"
 	api "github.com/regen-network/regen-ledger/api/v2/regen/ecocredit/v1"
 	"github.com/regen-network/regen-ledger/x/ecocredit/v3"
+	"github.com/regen-network/regen-ledger/x/ecocredit/v3/base"
 	types "github.com/regen-network/regen-ledger/x/ecocredit/v3/base/types/v1"
 	"github.com/regen-network/regen-ledger/x/ecocredit/v3/zzinv"
 	zz "github.com/regen-network/regen-ledger/x/ecocredit/v3/zzverif"
@@ -61,7 +63,38 @@ func VerifHarness_Step_Cancel() {
 
 func VerifHarness_Step_Bridge() {
 	req := &types.MsgBridge{}
-	runStep(req, func(k Keeper, ctx context.Context) error { _, err := k.Bridge(ctx, req); return err }, nil, nil)
+	runStep(req, func(k Keeper, ctx context.Context) error { _, err := k.Bridge(ctx, req); return err }, nil,
+		func(s *stepCtx) {
+			if s.Err == nil {
+				zz.Assert(zz.OrmExists0("regen.ecocredit.v1.AllowedBridgeChain", strings.ToLower(req.Target)), "C13 Bridge succeeds only for an allowed target chain")
+				cancelled := zz.QInt(0)
+				for _, c := range req.Credits {
+					var bt api.Batch
+					found := zz.OrmLookup0(zzinv.TBatch, "Denom", &bt, c.BatchDenom)
+					var bc api.BatchContract
+					bound := zz.OrmRow0(zzinv.TBatchContract, &bc, bt.Key)
+					zz.Assert(zz.And(found, bound), "C13 Bridge succeeds only for batches with a bound contract")
+					cancelled = zz.QAdd(cancelled, zz.QIf(bt.Key == s.Sk.Batch, zz.QParse(c.Amount), zz.QInt(0)))
+				}
+				ds := zzinv.DeltaSupply(s.Sk.Batch)
+				zz.Assert(zz.QEq(ds.Cancelled, cancelled), "C13 Bridge cancels exactly the bridged amounts")
+				// the events report each batch's own contract
+				ne := zz.EventCount()
+				nb := 0
+				for i := 0; i < ne; i++ {
+					var ev types.EventBridge
+					if zz.EventAt(i, &ev) {
+						var bt api.Batch
+						zz.OrmLookup0(zzinv.TBatch, "Denom", &bt, ev.BatchDenom)
+						var bc api.BatchContract
+						zz.OrmRow0(zzinv.TBatchContract, &bc, bt.Key)
+						zz.Assert(zz.StrEq(ev.Contract, bc.Contract), "C13 EventBridge reports the contract bound to the bridged batch")
+						nb++
+					}
+				}
+				zz.Assert(nb == len(req.Credits), "C13 Bridge emits one EventBridge per bridged credit entry")
+			}
+		})
 }
 
 // ---- issuance
@@ -73,7 +106,28 @@ func VerifHarness_Step_CreateBatch() {
 			// the batch created by this message is the one that exists now and did not before
 			created := zz.And(zz.OrmExists1(zzinv.TBatch, b), zz.Not(zz.OrmExists0(zzinv.TBatch, b)))
 			return zz.QIf(created, sumIssuance(req.Issuance), zz.QInt(0))
-		}, nil)
+		}, func(s *stepCtx) {
+			if s.Err == nil {
+				var p api.Project
+				found := zz.OrmLookup0(zzinv.TProject, "Id", &p, req.ProjectId)
+				zz.Assert(zz.And(found, zz.OrmExists0(zzinv.TClassIssuer, p.ClassKey, s.Signer)), "C08 CreateBatch succeeds only for an issuer of the project's class")
+				// C14: consecutive numbering per project
+				var seq0, seq1 api.BatchSequence
+				has0 := zz.OrmRow0("regen.ecocredit.v1.BatchSequence", &seq0, p.Key)
+				has1 := zz.OrmRow1("regen.ecocredit.v1.BatchSequence", &seq1, p.Key)
+				n := uint64(1)
+				if has0 {
+					n = seq0.NextSequence
+				}
+				zz.Assert(zz.And(has1, seq1.NextSequence == n+1), "C14 CreateBatch advances the project's batch sequence by exactly one")
+				// C13: an origin tx is recorded at most once per class
+				if req.OriginTx != nil {
+					zz.Assert(zz.Not(zz.OrmExists0(zzinv.TOriginTx, p.ClassKey, req.OriginTx.Id, req.OriginTx.Source)), "C13 CreateBatch with an origin tx succeeds only if that origin tx was not used in the class before")
+					zz.Assert(zz.OrmExists1(zzinv.TOriginTx, p.ClassKey, req.OriginTx.Id, req.OriginTx.Source), "C13 CreateBatch records the origin tx")
+				}
+			}
+			zz.Assert(zz.OrmDeletes(zzinv.TOriginTx)+zz.OrmDeletes(zzinv.TBatchContract) == 0, "C13 origin tx and contract records are never deleted")
+		})
 }
 
 func VerifHarness_Step_MintBatchCredits() {
@@ -88,6 +142,10 @@ func VerifHarness_Step_MintBatchCredits() {
 				var bt api.Batch
 				found := zz.OrmLookup0(zzinv.TBatch, "Denom", &bt, req.BatchDenom)
 				zz.Assert(zz.And(found, zz.And(bt.Open, zz.BytesEq(bt.Issuer, s.Signer))), "C08 mint succeeds only for the batch issuer on an open batch")
+				var p api.Project
+				zz.OrmRow0(zzinv.TProject, &p, bt.ProjectKey)
+				zz.Assert(zz.Not(zz.OrmExists0(zzinv.TOriginTx, p.ClassKey, req.OriginTx.Id, req.OriginTx.Source)), "C13 MintBatchCredits succeeds only if the origin tx was not used in the class before")
+				zz.Assert(zz.OrmExists1(zzinv.TOriginTx, p.ClassKey, req.OriginTx.Id, req.OriginTx.Source), "C13 MintBatchCredits records the origin tx")
 			}
 		})
 }
@@ -104,7 +162,20 @@ func VerifHarness_Step_BridgeReceive() {
 			created := zz.And(zz.OrmExists1(zzinv.TBatch, b), zz.Not(zz.OrmExists0(zzinv.TBatch, b)))
 			target := zz.BIf(bound, bc.BatchKey == b, created)
 			return zz.QIf(target, zz.QParse(req.Batch.Amount), zz.QInt(0))
-		}, nil)
+		}, func(s *stepCtx) {
+			if s.Err == nil {
+				zz.Assert(zz.OrmExists0("regen.ecocredit.v1.AllowedBridgeChain", strings.ToLower(req.OriginTx.Source)), "C13 BridgeReceive succeeds only for an allowed source chain")
+				var c api.Class
+				zz.OrmLookup0(zzinv.TClass, "Id", &c, req.ClassId)
+				zz.Assert(zz.Not(zz.OrmExists0(zzinv.TOriginTx, c.Key, req.OriginTx.Id, req.OriginTx.Source)), "C13 BridgeReceive succeeds only if the origin tx was not used in the class before")
+				zz.Assert(zz.OrmExists1(zzinv.TOriginTx, c.Key, req.OriginTx.Id, req.OriginTx.Source), "C13 BridgeReceive records the origin tx")
+				var bc0, bc1 api.BatchContract
+				bound0 := zz.OrmLookup0(zzinv.TBatchContract, "ClassKeyContract", &bc0, c.Key, req.OriginTx.Contract)
+				bound1 := zz.OrmLookup1(zzinv.TBatchContract, "ClassKeyContract", &bc1, c.Key, req.OriginTx.Contract)
+				zz.Assert(bound1, "C13 after BridgeReceive the contract is bound to a batch of the class")
+				zz.Assert(zz.Implies(bound0, bc0.BatchKey == bc1.BatchKey), "C13 a contract stays bound to the same batch")
+			}
+		})
 }
 
 func VerifHarness_Step_SealBatch() {
@@ -123,82 +194,247 @@ func VerifHarness_Step_SealBatch() {
 
 func VerifHarness_Step_CreateClass() {
 	req := &types.MsgCreateClass{}
-	runStep(req, func(k Keeper, ctx context.Context) error { _, err := k.CreateClass(ctx, req); return err }, nil, nil)
+	runStep(req, func(k Keeper, ctx context.Context) error { _, err := k.CreateClass(ctx, req); return err }, nil,
+		func(s *stepCtx) {
+			s.SkipC05 = true
+			var fee api.ClassFee
+			zz.OrmRow0("regen.ecocredit.v1.ClassFee", &fee)
+			denom := ""
+			if fee.Fee != nil {
+				denom = fee.Fee.Denom
+			}
+			zzinv.CheckC05FeeBurn(s.Sk.Basket, denom, fee.Fee != nil)
+			if s.Err == nil {
+				var al api.ClassCreatorAllowlist
+				zz.OrmRow0("regen.ecocredit.v1.ClassCreatorAllowlist", &al)
+				zz.Assert(zz.Implies(al.Enabled, zz.OrmExists0("regen.ecocredit.v1.AllowedClassCreator", s.Signer)), "C08 with the allowlist on, CreateClass succeeds only for an allow-listed creator")
+				// C14: consecutive numbering per credit type
+				var seq0, seq1 api.ClassSequence
+				has0 := zz.OrmRow0("regen.ecocredit.v1.ClassSequence", &seq0, req.CreditTypeAbbrev)
+				has1 := zz.OrmRow1("regen.ecocredit.v1.ClassSequence", &seq1, req.CreditTypeAbbrev)
+				n := uint64(1)
+				if has0 {
+					n = seq0.NextSequence
+				}
+				zz.Assert(zz.And(has1, seq1.NextSequence == n+1), "C14 CreateClass advances the credit type's class sequence by exactly one")
+				var c api.Class
+				made := zz.OrmLookup1(zzinv.TClass, "Id", &c, base.FormatClassID(req.CreditTypeAbbrev, n))
+				zz.Assert(zz.And(made, zz.And(zz.StrEq(c.CreditTypeAbbrev, req.CreditTypeAbbrev), zz.BytesEq(c.Admin, s.Signer))), "C14 CreateClass stores the class under the id formatted from the credit type and the next sequence number")
+				// C18: the fee
+				if fee.Fee != nil {
+					feeInt, _ := sdk.NewIntFromString(fee.Fee.Amount)
+					feeAmt := zz.QOf(feeInt)
+					zz.Assert(zz.QEq(zz.QSub(zz.BankBal0(s.Signer, fee.Fee.Denom), zz.BankBal1(s.Signer, fee.Fee.Denom)), feeAmt), "C18 a successful CreateClass debits the creator exactly the stored class fee")
+					zz.Assert(zz.QEq(zz.QSub(zz.BankSupply0(fee.Fee.Denom), zz.BankSupply1(fee.Fee.Denom)), feeAmt), "C18 a successful CreateClass burns exactly the stored class fee")
+					mod := zz.ModuleAddr(ecocredit.ModuleName)
+					zz.Assert(zz.QEq(zz.BankBal0(mod, fee.Fee.Denom), zz.BankBal1(mod, fee.Fee.Denom)), "C18 the ecocredit module account keeps nothing of the class fee")
+					zz.Assert(zz.And(req.Fee != nil, zz.StrEq(req.Fee.Denom, fee.Fee.Denom)), "C18 CreateClass succeeds only with an offer in the fee denom")
+					if req.Fee != nil {
+						zz.Assert(zz.QLe(feeAmt, zz.QOf(req.Fee.Amount)), "C18 CreateClass succeeds only if the offer covers the fee")
+					}
+				} else {
+					zz.Assert(zz.BankCalls() == 0, "C18 with no class fee set, CreateClass charges nothing")
+				}
+			}
+		})
 }
 
 func VerifHarness_Step_CreateProject() {
 	req := &types.MsgCreateProject{}
-	runStep(req, func(k Keeper, ctx context.Context) error { _, err := k.CreateProject(ctx, req); return err }, nil, nil)
+	runStep(req, func(k Keeper, ctx context.Context) error { _, err := k.CreateProject(ctx, req); return err }, nil,
+		func(s *stepCtx) {
+			if s.Err == nil {
+				var c api.Class
+				found := zz.OrmLookup0(zzinv.TClass, "Id", &c, req.ClassId)
+				zz.Assert(zz.And(found, zz.OrmExists0(zzinv.TClassIssuer, c.Key, s.Signer)), "C08 CreateProject succeeds only for an issuer of the class")
+				// C14: consecutive numbering per class
+				var seq0, seq1 api.ProjectSequence
+				has0 := zz.OrmRow0("regen.ecocredit.v1.ProjectSequence", &seq0, c.Key)
+				has1 := zz.OrmRow1("regen.ecocredit.v1.ProjectSequence", &seq1, c.Key)
+				n := uint64(1)
+				if has0 {
+					n = seq0.NextSequence
+				}
+				zz.Assert(zz.And(has1, seq1.NextSequence == n+1), "C14 CreateProject advances the class's project sequence by exactly one")
+				var p api.Project
+				made := zz.OrmLookup1(zzinv.TProject, "Id", &p, base.FormatProjectID(c.Id, n))
+				zz.Assert(zz.And(made, p.ClassKey == c.Key), "C14 CreateProject stores the project under the id formatted from the class id and the next sequence number")
+			}
+		})
 }
 
 func VerifHarness_Step_UpdateClassAdmin() {
 	req := &types.MsgUpdateClassAdmin{}
-	runStep(req, func(k Keeper, ctx context.Context) error { _, err := k.UpdateClassAdmin(ctx, req); return err }, nil, nil)
+	runStep(req, func(k Keeper, ctx context.Context) error { _, err := k.UpdateClassAdmin(ctx, req); return err }, nil,
+		func(s *stepCtx) {
+			if s.Err == nil {
+				var c api.Class
+				found := zz.OrmLookup0(zzinv.TClass, "Id", &c, req.ClassId)
+				zz.Assert(zz.And(found, zz.BytesEq(c.Admin, s.Signer)), "C08 UpdateClassAdmin succeeds only for the admin of the named class")
+				zz.Assert(zz.AllWritten2(zzinv.TClass, func(pre *api.Class, pe bool, post *api.Class, qe bool) bool {
+					return zz.And(pe, pre.Key == c.Key)
+				}), "C08 UpdateClassAdmin writes no class other than the one it names")
+				zz.Assert(zz.OrmWrites(zzinv.TProject)+zz.OrmWrites(zzinv.TBatch)+zz.OrmWrites(zzinv.TBatchBalance)+zz.OrmWrites(zzinv.TBatchSupply) == 0, "C08 UpdateClassAdmin changes no project, batch, balance or supply")
+			}
+		})
 }
 
 func VerifHarness_Step_UpdateClassIssuers() {
 	req := &types.MsgUpdateClassIssuers{}
-	runStep(req, func(k Keeper, ctx context.Context) error { _, err := k.UpdateClassIssuers(ctx, req); return err }, nil, nil)
+	runStep(req, func(k Keeper, ctx context.Context) error { _, err := k.UpdateClassIssuers(ctx, req); return err }, nil,
+		func(s *stepCtx) {
+			if s.Err == nil {
+				var c api.Class
+				found := zz.OrmLookup0(zzinv.TClass, "Id", &c, req.ClassId)
+				zz.Assert(zz.And(found, zz.BytesEq(c.Admin, s.Signer)), "C08 UpdateClassIssuers succeeds only for the admin of the named class")
+				zz.Assert(zz.AllWritten2(zzinv.TClass, func(pre *api.Class, pe bool, post *api.Class, qe bool) bool {
+					return zz.And(pe, pre.Key == c.Key)
+				}), "C08 UpdateClassIssuers writes no class other than the one it names")
+				zz.Assert(zz.OrmWrites(zzinv.TProject)+zz.OrmWrites(zzinv.TBatch)+zz.OrmWrites(zzinv.TBatchBalance)+zz.OrmWrites(zzinv.TBatchSupply) == 0, "C08 UpdateClassIssuers changes no project, batch, balance or supply")
+			}
+		})
 }
 
 func VerifHarness_Step_UpdateClassMetadata() {
 	req := &types.MsgUpdateClassMetadata{}
-	runStep(req, func(k Keeper, ctx context.Context) error { _, err := k.UpdateClassMetadata(ctx, req); return err }, nil, nil)
+	runStep(req, func(k Keeper, ctx context.Context) error { _, err := k.UpdateClassMetadata(ctx, req); return err }, nil,
+		func(s *stepCtx) {
+			if s.Err == nil {
+				var c api.Class
+				found := zz.OrmLookup0(zzinv.TClass, "Id", &c, req.ClassId)
+				zz.Assert(zz.And(found, zz.BytesEq(c.Admin, s.Signer)), "C08 UpdateClassMetadata succeeds only for the admin of the named class")
+				zz.Assert(zz.AllWritten2(zzinv.TClass, func(pre *api.Class, pe bool, post *api.Class, qe bool) bool {
+					return zz.And(pe, pre.Key == c.Key)
+				}), "C08 UpdateClassMetadata writes no class other than the one it names")
+				zz.Assert(zz.OrmWrites(zzinv.TProject)+zz.OrmWrites(zzinv.TBatch)+zz.OrmWrites(zzinv.TBatchBalance)+zz.OrmWrites(zzinv.TBatchSupply) == 0, "C08 UpdateClassMetadata changes no project, batch, balance or supply")
+			}
+		})
 }
 
 func VerifHarness_Step_UpdateProjectAdmin() {
 	req := &types.MsgUpdateProjectAdmin{}
-	runStep(req, func(k Keeper, ctx context.Context) error { _, err := k.UpdateProjectAdmin(ctx, req); return err }, nil, nil)
+	runStep(req, func(k Keeper, ctx context.Context) error { _, err := k.UpdateProjectAdmin(ctx, req); return err }, nil,
+		func(s *stepCtx) {
+			if s.Err == nil {
+				var p api.Project
+				found := zz.OrmLookup0(zzinv.TProject, "Id", &p, req.ProjectId)
+				zz.Assert(zz.And(found, zz.BytesEq(p.Admin, s.Signer)), "C08 UpdateProjectAdmin succeeds only for the admin of the named project")
+				zz.Assert(zz.AllWritten2(zzinv.TProject, func(pre *api.Project, pe bool, post *api.Project, qe bool) bool {
+					return zz.And(pe, pre.Key == p.Key)
+				}), "C08 UpdateProjectAdmin writes no project other than the one it names")
+				zz.Assert(zz.OrmWrites(zzinv.TClass)+zz.OrmWrites(zzinv.TBatch)+zz.OrmWrites(zzinv.TBatchBalance)+zz.OrmWrites(zzinv.TBatchSupply) == 0, "C08 UpdateProjectAdmin changes no class, batch, balance or supply")
+			}
+		})
 }
 
 func VerifHarness_Step_UpdateProjectMetadata() {
 	req := &types.MsgUpdateProjectMetadata{}
-	runStep(req, func(k Keeper, ctx context.Context) error { _, err := k.UpdateProjectMetadata(ctx, req); return err }, nil, nil)
+	runStep(req, func(k Keeper, ctx context.Context) error { _, err := k.UpdateProjectMetadata(ctx, req); return err }, nil,
+		func(s *stepCtx) {
+			if s.Err == nil {
+				var p api.Project
+				found := zz.OrmLookup0(zzinv.TProject, "Id", &p, req.ProjectId)
+				zz.Assert(zz.And(found, zz.BytesEq(p.Admin, s.Signer)), "C08 UpdateProjectMetadata succeeds only for the admin of the named project")
+				zz.Assert(zz.AllWritten2(zzinv.TProject, func(pre *api.Project, pe bool, post *api.Project, qe bool) bool {
+					return zz.And(pe, pre.Key == p.Key)
+				}), "C08 UpdateProjectMetadata writes no project other than the one it names")
+				zz.Assert(zz.OrmWrites(zzinv.TClass)+zz.OrmWrites(zzinv.TBatch)+zz.OrmWrites(zzinv.TBatchBalance)+zz.OrmWrites(zzinv.TBatchSupply) == 0, "C08 UpdateProjectMetadata changes no class, batch, balance or supply")
+			}
+		})
 }
 
 func VerifHarness_Step_UpdateBatchMetadata() {
 	req := &types.MsgUpdateBatchMetadata{}
-	runStep(req, func(k Keeper, ctx context.Context) error { _, err := k.UpdateBatchMetadata(ctx, req); return err }, nil, nil)
+	runStep(req, func(k Keeper, ctx context.Context) error { _, err := k.UpdateBatchMetadata(ctx, req); return err }, nil,
+		func(s *stepCtx) {
+			if s.Err == nil {
+				var bt api.Batch
+				found := zz.OrmLookup0(zzinv.TBatch, "Denom", &bt, req.BatchDenom)
+				zz.Assert(zz.And(found, zz.And(bt.Open, zz.BytesEq(bt.Issuer, s.Signer))), "C08 UpdateBatchMetadata succeeds only for the batch issuer on an open batch")
+				zz.Assert(zz.AllWritten2(zzinv.TBatch, func(pre *api.Batch, pe bool, post *api.Batch, qe bool) bool {
+					return zz.And(pe, pre.Key == bt.Key)
+				}), "C08 UpdateBatchMetadata writes no batch other than the one it names")
+			}
+		})
 }
 
 // ---- governance
 
 func VerifHarness_Step_AddCreditType() {
 	req := &types.MsgAddCreditType{}
-	runStep(req, func(k Keeper, ctx context.Context) error { _, err := k.AddCreditType(ctx, req); return err }, nil, nil)
+	runStep(req, func(k Keeper, ctx context.Context) error { _, err := k.AddCreditType(ctx, req); return err }, nil,
+		func(s *stepCtx) {
+			if s.Err == nil {
+				zz.Assert(zz.BytesEq(s.Signer, s.Authority), "C08 AddCreditType succeeds only for the governance authority")
+			}
+		})
 }
 
 func VerifHarness_Step_SetClassCreatorAllowlist() {
 	req := &types.MsgSetClassCreatorAllowlist{}
-	runStep(req, func(k Keeper, ctx context.Context) error { _, err := k.SetClassCreatorAllowlist(ctx, req); return err }, nil, nil)
+	runStep(req, func(k Keeper, ctx context.Context) error { _, err := k.SetClassCreatorAllowlist(ctx, req); return err }, nil,
+		func(s *stepCtx) {
+			if s.Err == nil {
+				zz.Assert(zz.BytesEq(s.Signer, s.Authority), "C08 SetClassCreatorAllowlist succeeds only for the governance authority")
+			}
+		})
 }
 
 func VerifHarness_Step_AddClassCreator() {
 	req := &types.MsgAddClassCreator{}
-	runStep(req, func(k Keeper, ctx context.Context) error { _, err := k.AddClassCreator(ctx, req); return err }, nil, nil)
+	runStep(req, func(k Keeper, ctx context.Context) error { _, err := k.AddClassCreator(ctx, req); return err }, nil,
+		func(s *stepCtx) {
+			if s.Err == nil {
+				zz.Assert(zz.BytesEq(s.Signer, s.Authority), "C08 AddClassCreator succeeds only for the governance authority")
+			}
+		})
 }
 
 func VerifHarness_Step_RemoveClassCreator() {
 	req := &types.MsgRemoveClassCreator{}
-	runStep(req, func(k Keeper, ctx context.Context) error { _, err := k.RemoveClassCreator(ctx, req); return err }, nil, nil)
+	runStep(req, func(k Keeper, ctx context.Context) error { _, err := k.RemoveClassCreator(ctx, req); return err }, nil,
+		func(s *stepCtx) {
+			if s.Err == nil {
+				zz.Assert(zz.BytesEq(s.Signer, s.Authority), "C08 RemoveClassCreator succeeds only for the governance authority")
+			}
+		})
 }
 
 func VerifHarness_Step_UpdateClassFee() {
 	req := &types.MsgUpdateClassFee{}
-	runStep(req, func(k Keeper, ctx context.Context) error { _, err := k.UpdateClassFee(ctx, req); return err }, nil, nil)
+	runStep(req, func(k Keeper, ctx context.Context) error { _, err := k.UpdateClassFee(ctx, req); return err }, nil,
+		func(s *stepCtx) {
+			if s.Err == nil {
+				zz.Assert(zz.BytesEq(s.Signer, s.Authority), "C08 UpdateClassFee succeeds only for the governance authority")
+			}
+		})
 }
 
 func VerifHarness_Step_AddAllowedBridgeChain() {
 	req := &types.MsgAddAllowedBridgeChain{}
-	runStep(req, func(k Keeper, ctx context.Context) error { _, err := k.AddAllowedBridgeChain(ctx, req); return err }, nil, nil)
+	runStep(req, func(k Keeper, ctx context.Context) error { _, err := k.AddAllowedBridgeChain(ctx, req); return err }, nil,
+		func(s *stepCtx) {
+			if s.Err == nil {
+				zz.Assert(zz.BytesEq(s.Signer, s.Authority), "C08 AddAllowedBridgeChain succeeds only for the governance authority")
+			}
+		})
 }
 
 func VerifHarness_Step_RemoveAllowedBridgeChain() {
 	req := &types.MsgRemoveAllowedBridgeChain{}
-	runStep(req, func(k Keeper, ctx context.Context) error { _, err := k.RemoveAllowedBridgeChain(ctx, req); return err }, nil, nil)
+	runStep(req, func(k Keeper, ctx context.Context) error { _, err := k.RemoveAllowedBridgeChain(ctx, req); return err }, nil,
+		func(s *stepCtx) {
+			if s.Err == nil {
+				zz.Assert(zz.BytesEq(s.Signer, s.Authority), "C08 RemoveAllowedBridgeChain succeeds only for the governance authority")
+			}
+		})
 }
 
 func VerifHarness_Step_BurnRegen() {
 	req := &types.MsgBurnRegen{}
-	runStep(req, func(k Keeper, ctx context.Context) error { _, err := k.BurnRegen(ctx, req); return err }, nil, nil)
+	runStep(req, func(k Keeper, ctx context.Context) error { _, err := k.BurnRegen(ctx, req); return err }, nil,
+		func(s *stepCtx) {
+			// a basket token denom starts with "eco." (ValidateBasketDenom), so it is not uregen
+			zz.Assume(zz.Not(zz.StrEq(zzinv.BasketDenomOf(s.Sk.Basket), "uregen")))
+		})
 }
